@@ -425,6 +425,33 @@ func runC20(c *Ctx) {
 		}
 	}
 
+	// directed: recursive descent followed by further selectors over members nested below matching
+	// members, with escapes in keys and values (each value is reached by more than one walk)
+	for _, d := range []string{
+		`{"a":{"b":1,"a":{"b":2}}}`, `{"a":{"c":{"a":{"b":3}}}}`, `{"a":[{"a":[7]}]}`, `{"a":{"a":{"a":{"b":"x\ny","a":{"b":"\u00e9"}}}}}`,
+		`{"a":{"b":{"a":{"b":"t\tu"}},"a":[{"b":1},{"a":{"b":[2,{"a":{"b":3}}]}}]}}`, `{"x":{"a":{"b\u0062":1,"b":"q\"r"}},"a":{"x":{"a":{"b":"\\"}}}}`,
+	} {
+		toks, ok := c20Tokens([]byte(d))
+		if !ok {
+			continue
+		}
+		for _, pt := range []string{"$..a.b", "$..a[0]", "$..a[*]", "$..a..b", "$..a.a.b", "$..a..a", "$.a..a.b", "$..b", "$..a..a..b"} {
+			b, ok := mk(pt)
+			if !ok {
+				continue
+			}
+			c.Op("pextract "+b.sels+" "+toks, c20Extract(b.p, []byte(d)), true, "extract-directed-desc")
+			parts, err := b.p.Extract([]byte(d))
+			okp := err == nil
+			for _, part := range parts {
+				if !stdjson.Valid(part) {
+					okp = false
+				}
+			}
+			c.Oracle("extracted-parts-are-documents", pt+" <- "+d, fmt.Sprintf("%q err=%v", parts, err), "valid sub-documents", okp, "")
+		}
+	}
+
 	// histories: one Path, failing calls interleaved; every result equals a fresh Path's
 	bad := []string{`{"a":`, `{"a":1,}`, `[1,2`, `{"a":{"b":tru}}`, `{"a":[1,{"b":}]}`, ``, `{"a":1}x`, `[{"a":1},{"a":nul}]`}
 	nh := 300
